@@ -113,4 +113,27 @@ example : ∃ l m r, expand exToks = l ++ m ++ r ∧ Match (yieldT (.array 24 36
   type_exact_tokens ex_lex ex_parse (n := .array 24 36 (.simple 30 (B "STRING")))
     (by simp [exTree, nodesT, nodesFs, optIdent])
 
+/-! ## the repaired inputs: every type node of `STRUCT<a date.t, b INT64.u>` and of `` `date`.x `` re-parses from its
+slice (`date.t` = bytes 9..15, `INT64.u` = bytes 19..26; before the repair of `lookaheadSimpleType` neither the input
+nor the slices were accepted) -/
+
+open MF.Props.C05 (ex3Buf ex3Toks ex3Tree ex3_lex ex3_parse bqnBuf bqnToks bqnTree bqn_lex bqn_parse)
+
+example : slice ex3Buf 9 15 = B "date.t" ∧ slice ex3Buf 19 26 = B "INT64.u" := by decide
+
+/-- `type_exact` instantiated on the two named types (no SimpleType below them: `hq` is vacuous) -/
+example : ∃ ts2, Lex.lexAll (slice ex3Buf 9 15) = .ok ts2 ∧
+    parseTypeTop (topFuel ts2) ts2 = .ok (.named [⟨0, 4, B "date"⟩, ⟨5, 6, B "t"⟩]) :=
+  type_exact ex3_lex ex3_parse (n := .named [⟨9, 13, B "date"⟩, ⟨14, 15, B "t"⟩])
+    (by simp [ex3Tree, nodesT, nodesFs, optIdent]) (fun a nm hn => by simp [nodesT] at hn)
+
+example : ∃ ts2, Lex.lexAll (slice ex3Buf 19 26) = .ok ts2 ∧
+    parseTypeTop (topFuel ts2) ts2 = .ok (.named [⟨0, 5, B "INT64"⟩, ⟨6, 7, B "u"⟩]) :=
+  type_exact ex3_lex ex3_parse (n := .named [⟨19, 24, B "INT64"⟩, ⟨25, 26, B "u"⟩])
+    (by simp [ex3Tree, nodesT, nodesFs, optIdent]) (fun a nm hn => by simp [nodesT] at hn)
+
+/-- the back-quoted first component: the whole input is the only type node -/
+example : ∃ ts2, Lex.lexAll (slice bqnBuf 0 8) = .ok ts2 ∧ parseTypeTop (topFuel ts2) ts2 = .ok bqnTree :=
+  type_exact bqn_lex bqn_parse (n := bqnTree) (by simp [bqnTree, nodesT]) (fun a nm hn => by simp [bqnTree, nodesT] at hn)
+
 end MF.Props.C06
